@@ -106,6 +106,11 @@ func (p *MinQueriesPlanner) Plan(ctx *PlanningContext) (QueryPlanList, error) {
 		return nil, e
 	}
 
+	// a document without any operation (an empty query string, or only fragments) has nothing to plan
+	if len(parsedQuery.Operations) == 0 {
+		return nil, errors.New("query document does not contain an operation")
+	}
+
 	// generate the plan
 	plans, err := p.generatePlans(ctx, parsedQuery)
 	if err != nil {
